@@ -4,7 +4,12 @@ import common, diff, gen, progs
 from diff import Case
 
 THEOREMS = ["C08_lex_total", "C08_lexer_tokens_ok", "C08_parser_total", "C08_binder_total", "C08_handover_safe",
-            "C08_handover_covers_catalogue", "C08_front_end_never_panics", "C08_pipeline_panic_only_from_execution"]
+            "C08_handover_covers_catalogue", "C08_front_end_never_panics", "C08_pipeline_panic_only_from_execution",
+            # execution half (Props/C08b.v)
+            "C08_library_function_contract", "C08_library_method_contract", "C08_symbol_tables_closed",
+            "C08_parser_statements_ok", "C08_state_invariant", "C08_exec_never_panics", "C08_pipeline_never_panics"]
+PROPS = ["C08", "C08b"]
+VO = ["theories/Props/C08.vo", "theories/Props/C08b.vo"]
 RULE = ("(i) catalogue-driven: for each of the functions, methods and constants reachable from the standard library "
         "(regenerated from the running code): the documented call, calls with a missing / surplus / duplicated / unknown / "
         "misordered argument, and one value of every kind the language can produce (bool, integers at 0/255/256/65535/"
